@@ -665,6 +665,29 @@ func genAsmCase(rng *rand.Rand) asmGen {
 		}
 		c.seeds = append(c.seeds, s)
 	}
+	// many stale seeds, each matching a run of its own: every one of them is chosen by the plan and found invalid, one
+	// after the other (Plan.Validate stops at the first bad seed) — k invalid seeds need k+1 plans, whatever k is
+	manyStale := false
+	if len(parts) >= 6 && rng.Intn(6) == 0 {
+		manyStale = true
+		k := 5 + rng.Intn(5)
+		for j := 0; j < k; j++ {
+			a := (j * len(parts)) / k
+			e := a + 1 + rng.Intn(2)
+			if e > len(parts) {
+				e = len(parts)
+			}
+			sp := append([][]byte{}, parts[a:e]...)
+			s := asmSeed{src: strconv.Itoa(len(c.files)), min: smin, avg: savg, max: smax}
+			file := joinParts(sp)
+			s.table = tableOf(c.alg, sp)
+			if len(file) > 0 && rng.Intn(6) != 0 {
+				file[rng.Intn(len(file))] ^= 1
+			}
+			c.files = append(c.files, file)
+			c.seeds = append(c.seeds, s)
+		}
+	}
 	// what the target path holds beforehand
 	switch r := rng.Intn(20); {
 	case r < 7:
@@ -693,6 +716,9 @@ func genAsmCase(rng *rand.Rand) asmGen {
 		c.prior = &b
 	}
 	c.act = []string{"bail", "skip", "regen"}[rng.Intn(3)]
+	if manyStale {
+		c.act = []string{"skip", "regen"}[rng.Intn(2)]
+	}
 	switch rng.Intn(4) {
 	case 0:
 		c.nr, c.sr = true, true
